@@ -414,7 +414,7 @@ class Executor:
             if rv.how.startswith("PointerCoercion") or rv.how in ("Transmute", "PtrToPtr"):
                 return a
             raise Unsupported("cast kind %s" % rv.how)
-        if k == "tuple":
+        if k in ("tuple", "array"):
             return Agg([self.eval_operand(st, f, x) for x in rv.items])
         if k == "struct":
             return self.make_struct(st, f, rv)
